@@ -267,6 +267,9 @@ func genC03(rng *rand.Rand, tier string) (cases []string) {
 			continue
 		}
 		s := genName(rng)
+		if rng.IntN(25) == 0 {
+			s = genLongIDN(rng)
+		}
 		cases = append(cases, pick(rng, ops...)+" "+hx([]byte(s))+" "+toASCIIField(s))
 	}
 	return cases
